@@ -864,6 +864,54 @@ func runDurTorn(c *Ctx, r *RuleRun) {
 			}
 		}
 	}
+	// a classifier function answers "torn" as soon as ONE of the end-of-input errors matches (a conjunction of them can
+	// never hold)
+	for _, f := range p.Funcs {
+		if f.Pkg != pk || f.Signature.Results().Len() != 1 {
+			continue
+		}
+		if bt, ok := f.Signature.Results().At(0).Type().Underlying().(*types.Basic); !ok || bt.Kind() != types.Bool {
+			continue
+		}
+		var mustTrue func(b, from *ssa.BasicBlock, depth int) bool
+		mustTrue = func(b, from *ssa.BasicBlock, depth int) bool {
+			if depth > 8 || len(b.Instrs) == 0 {
+				return false
+			}
+			switch last := b.Instrs[len(b.Instrs)-1].(type) {
+			case *ssa.Return:
+				v := last.Results[0]
+				if ph, ok := v.(*ssa.Phi); ok && ph.Block() == b {
+					for i, pr := range b.Preds {
+						if pr == from {
+							v = ph.Edges[i]
+						}
+					}
+				}
+				return isConstBool(v, true)
+			case *ssa.Jump:
+				return mustTrue(b.Succs[0], b, depth+1)
+			case *ssa.If:
+				return mustTrue(b.Succs[0], b, depth+1) && mustTrue(b.Succs[1], b, depth+1)
+			}
+			return false
+		}
+		for _, b := range f.Blocks {
+			if len(b.Instrs) == 0 {
+				continue
+			}
+			iff, ok := b.Instrs[len(b.Instrs)-1].(*ssa.If)
+			if !ok {
+				continue
+			}
+			ci, ok := iff.Cond.(ssa.Instruction)
+			if !ok || !isClassifier(ci) {
+				continue
+			}
+			r.Check(mustTrue(b.Succs[0], b, 0), p.FnName(f), "one end-of-input error is enough", p.Pos(instrPos(iff)), "the classifier answers true as soon as this test succeeds",
+				"the classifier does not answer `torn` when this end-of-input test succeeds (the tests are combined with && instead of ||): a record cut short is never recognised and recovery fails on it")
+		}
+	}
 }
 
 func operandsOf(i ssa.Instruction) []ssa.Value {
